@@ -22,6 +22,7 @@ META = {
     "or the lot's amount, lots later than the event and asset mismatches, and GainLossSet rejects running sums that exceed an event or a lot, so over-consumption "
     "is an error, not figures; when no lot at or before the event has balance the seek raises AcquiredLotsExhaustedException on every path and the tax engine converts it "
     "to RP2ValueError; only the end of the taxable events ends the loop silently; a lot handed out by a seek stays among the candidates unless exhausted (no valid history is rejected because a lot with balance was lost); lots are found through an order-preserving UTC key (never a lot after the disposal).",
+    "restated": 'lots and events reach the engine in time order and the year->method schedule is walked completely (shared with C01); every out-transaction and fee-bearing transfer is a taxable event (C03.a, c, e)',
     "not_decided": "exact exhaustion after selling the whole holding and absence of spurious exhaustion for every history (global behaviour of the matcher under 13-decimal "
     "quantised comparisons); run-time values.",
     "assumptions": ["RP2Decimal comparisons quantise to 13 decimals", "prezzemolo AVLTree semantics"],
